@@ -974,7 +974,9 @@ class Gen:
                 atoks = [t.text for t in rs.sig(rs.tokenize(anchor))]
                 hits = [i for i in range(fp.body_open + 1, fp.body_close - len(atoks)) if [t.text for t in st[i:i + len(atoks)]] == atoks and st[i + len(atoks)].text == "("]
                 if nth < 1 or nth > len(hits):
-                    raise AnchorLost(f"{fid}: @eta anchor {anchor!r} #{nth}: {len(hits)} hits")
+                    self.skipped_hints.append(f"{fid}: eta-expansion anchor {anchor!r} #{nth} not found")
+                    info.setdefault("skipped_hints", []).append(f"eta {anchor} #{nth}")
+                    continue
                 o = hits[nth - 1] + len(atoks)
                 depth = 0; e = o
                 while True:
@@ -985,7 +987,10 @@ class Gen:
                     e += 1
                 arg = st[o + 1:e]
                 if not arg or not all(re.match(r"^[A-Za-z_]\w*$", t.text) or t.text in ("::", "<", ">", ",", "&") for t in arg):
-                    raise AnchorLost(f"{fid}: @eta argument of {anchor!r} is not a function path")
+                    # soft: the argument is no longer a bare function path (e.g. it has become a closure); nothing to eta-expand
+                    self.skipped_hints.append(f"{fid}: eta-expansion at {anchor!r} skipped (argument is not a function path)")
+                    info.setdefault("skipped_hints", []).append(f"eta {anchor}")
+                    continue
                 ptxt = src[arg[0].start:arg[-1].end]
                 mm = re.match(r"\s*(\w+)\s*:\s*(.*?)\s*->\s*(.*?)\s*$", c.text.strip(), re.S)
                 if not mm: raise SystemExit(f"{self.spec_path}:{c.line}: @eta needs `name: T -> R`")
